@@ -106,7 +106,7 @@ PROPS = {
         "level": "proof",
         "verus": [("prettydec", None)],
         "kani": {"quick": [], "thorough": ["display_roundtrip_bounded"]},
-        "family": ("c07", {"quick": ["4"], "thorough": ["6"]}),
+        "family": ("c07", {"quick": ["5"], "thorough": ["6"]}),
         "explanation": "Verus discharges, for strings of every length, that PrettyDecimal::from_str (text extracted from /repo on this run) "
                        "returns Ok exactly for well-formed representable literals and then carries exactly the written mantissa, scale and grouping style; "
                        "all index/overflow/termination obligations of the scanner are discharged as well.",
@@ -137,18 +137,20 @@ PROPS = {
     },
     "C12": {
         "level": "proof",
-        "verus": [("intern", None), ("evaluated", ["Evaluated::from_expr_amount_mut", "Evaluated::from_expr_amount"])],
+        "verus": [("intern", None), ("evaluated", ["Evaluated::from_expr_amount_mut", "Evaluated::from_expr_amount"]), ("bookkeep", ["ProcessAccumulator::process"])],
         "explanation": "Verus proves the alias table on the real InternStore code (HashMap<&str, Option<InternedStr>>): a representation invariant (aliases point at registered canonicals, no chains) is "
                        "preserved by every operation; resolve/ensure map an alias to the canonical it was declared for and a canonical to itself, never re-point or remove a known name (so a later use of an alias "
                        "means the canonical in every later state); insert_canonical on an alias is AlreadyAlias and insert_alias on a canonical is AlreadyCanonical with the table unchanged; every commodity name "
-                       "in an evaluated literal goes through ensure/resolve.  The FromInterned impls of Commodity and Account are verified against the trait contract.",
+                       "in an evaluated literal goes through ensure/resolve; ProcessAccumulator::process rejects an `account`/`commodity` declaration whose name is already an alias and registers every accepted "
+                       "declaration without changing the meaning of names known before (against the store interface of ctx_stub.rs).  The FromInterned impls of Commodity and Account are verified against the trait contract.",
         "units_doc": ["core/src/report/intern.rs: InternStore::{get,resolve,ensure,insert_canonical,insert_alias,insert_canonical_impl,insert_alias_impl,as_type}, StoredValue::as_canonical, InternedStr::as_str",
-                      "core/src/report/commodity.rs, context.rs: impl FromInterned for Commodity / Account", "core/src/report/eval/evaluated.rs: from_expr_amount(_mut)"],
+                      "core/src/report/commodity.rs, context.rs: impl FromInterned for Commodity / Account", "core/src/report/eval/evaluated.rs: from_expr_amount(_mut)",
+                      "core/src/report/book_keeping.rs: ProcessAccumulator::process (declaration wiring)"],
         "assumptions": ["assumed (5 axioms, vx/prelude/intern_stub.rs): a &str key is its content — as_static(q) is the stored key equal in content to q; &'static str obeys the HashMap key model; "
                         "contains_borrowed_key / maps_borrowed_key_to_value / get_key_value for &str keys look up as_static(q)",
                         "assumed: Bump::alloc_str returns a &str with the same content; InternedStr pointer equality is modelled as content equality (sound while each name is allocated once, which the debug_assert obligations establish)",
                         "the account use site ctx.accounts.ensure in add_transaction is verified under C01-C03 against the same interface (ctx_stub.rs)"],
-        "not_decided": ["that reports print canonical names (Display / iterator code)", "ProcessAccumulator::process wiring of `account`/`commodity` directives to insert_canonical / insert_alias"],
+        "not_decided": ["that reports print canonical names (Display / iterator code)"],
     },
     "C20": {
         "level": "proof",
